@@ -10,9 +10,12 @@ pub mod c09;
 pub mod c10;
 pub mod c11;
 pub mod c12;
+pub mod c13;
 pub mod c15;
 pub mod c16;
 pub mod c17;
+#[cfg(feature = "backends")]
+pub mod c20;
 
 use crate::evidence::{Ctx, Meta, Report};
 
@@ -30,9 +33,12 @@ pub fn dispatch(ctx: &Ctx) -> Option<(Report, Meta)> {
         "C10" => c10::run(ctx),
         "C11" => c11::run(ctx),
         "C12" => c12::run(ctx),
+        "C13" => c13::run(ctx),
         "C15" => c15::run(ctx),
         "C16" => c16::run(ctx),
         "C17" => c17::run(ctx),
+        #[cfg(feature = "backends")]
+        "C20" => c20::run(ctx),
         _ => return None,
     })
 }
